@@ -150,6 +150,17 @@ PROPS["C03"] = dict(
     assumptions=["BeginSeqNo <= 0 is outside FIX and not generated", "all history messages are sent while logged on"],
 )
 
+PROPS["C06"] = dict(
+    pkg="./props/session", level="exploration", design_ref="DESIGN.md §3 C06, Appendix C",
+    technique="rapid-generated header-defect matrix delivered in every logged-on state; reactions compared with an independent decision table written from the statement, callbacks checked against the gate recomputed from the inbound bytes",
+    level_note=SESSION_NOTE,
+    stages=[dict(name="rapid", kind="rapid", run="^TestC06_Rapid$", checks=(3000, 60000), shards=(12, 16), timeout=(600, 3000))],
+    require=["state:normal", "state:recovering", "state:pending", "state:pending+recovering", "state:logon", "defects:control", "multi-defect"],
+    assumptions=["SendingTime values are placed at least 30 s away from the latency window edge, so the verdict does not depend on the run time",
+                 "whether a plain Reject advances the expected number is not fixed by the statement and not asserted",
+                 "time defects are not judged when CheckLatency=N (the statement conditions them on checking being enabled)"],
+)
+
 NOT_APPLICABLE = {}
 
 HOOK_COMMITS = ["ce15100"]
